@@ -54,10 +54,11 @@ TrLoad == /\ Is("Load")
           /\ UNCHANGED <<nscen, nprobe, cfgAt>>
 
 TrProbe == /\ Is("Probe")
-           /\ Flag((IF ToSet(E.serving) # Serving(good) THEN {"serving-mismatch"} ELSE {})
+           /\ Flag(IF Len(E.problems) > 0 THEN {"harness-problem"} ELSE   \* a round that could not measure is no measurement
+                   (IF ToSet(E.serving) # Serving(good) THEN {"serving-mismatch"} ELSE {})
                    \cup (IF ToSet(E.listening) # ListeningOf(good) THEN {"listening-mismatch"} ELSE {})
                    \cup (IF E.runners >= 0 /\ E.runners # (IF good = NoCfg THEN 0 ELSE 1) THEN {"leftover-runner"} ELSE {})
-                   \cup (IF Len(E.problems) > 0 THEN {"harness-problem"} ELSE {}))
+                   \cup {})
            /\ nprobe' = nprobe + 1
            /\ UNCHANGED <<good, nscen, cfgAt>>
 
